@@ -379,6 +379,284 @@ def parseRefundAddress (p : Bytes) : Option Bytes :=
 
 end Ral
 
+/-! ## contract side once more, with the parser facts as DATA
+
+`Whv.Gov.Ral` above is instantiated with the constants of `Whv.Gen.C15` at COMPILE time: when a contract source moves an
+offset, the theorems of `Whv.Props.C15` stop checking — but a proof that no longer builds names no failing request.
+`Facts` carries the same facts (plus the width `N` of every `u256From<N>Byte!` conversion) as a VALUE, so that the driver
+can be handed whatever `checks/c15.py` extracted from the CURRENT sources (a header line of the case file) and run the
+parsers `RalF.*` on the payloads the real node emitted.  `Facts.gen` is the compiled-in instance; `Whv.Props.C15` proves
+`RalF.parseX Facts.gen = Ral.parseX`, hence `specOkF Facts.gen = specOk` and the search cannot fire on the unchanged tree
+(`c15_search_sound`). -/
+
+structure Facts where
+  coreModule : Nat
+  tokenBridgeModule : Nat
+  moduleSlice : Nat × Nat
+  moduleConv : Nat
+  actionSlice : Nat × Nat
+  actContractUpgrade : Nat
+  actNewGuardianSet : Nat
+  actNewMessageFee : Nat
+  actTransferFee : Nat
+  actRegisterChain : Nat
+  actBridgeContractUpgrade : Nat
+  actDestroy : Nat
+  actMinConsistency : Nat
+  actRefundAddress : Nat
+  gsIndex : Nat × Nat
+  gsIndexConv : Nat
+  gsCount : Nat × Nat
+  gsCountConv : Nat
+  gsSizeBase : Nat
+  gsSizeStride : Nat
+  gsStoreFrom : Nat
+  gsKeyBase : Nat
+  gsKeyStride : Nat
+  gsKeyWidth : Nat
+  feeValue : Nat × Nat
+  feeConv : Nat
+  feeSize : Nat
+  tfAmount : Nat × Nat
+  tfAmountConv : Nat
+  tfRecipient : Nat × Nat
+  tfSize : Nat
+  cuCodeLen : Nat × Nat
+  cuCodeLenConv : Nat
+  cuStart : Nat
+  rcChain : Nat × Nat
+  rcChainConv : Nat
+  rcBridge : Nat × Nat
+  rcSize : Nat
+  dsChain : Nat × Nat
+  dsCount : Nat × Nat
+  dsCountConv : Nat
+  dsSizeBase : Nat
+  dsSizeStride : Nat
+  dsPathsFrom : Nat
+  dsPathWidth : Nat
+  clValue : Nat × Nat
+  clConv : Nat
+  clSize : Nat
+  raLen : Nat × Nat
+  raLenConv : Nat
+  raSizeBase : Nat
+  raSizeStride : Nat
+  raAddrFrom : Nat
+  deriving DecidableEq, Repr
+
+/-- The facts the library was compiled against (`Whv/Gen/C15.lean`). -/
+def Facts.gen : Facts where
+  coreModule := Gen.C15.coreModule
+  tokenBridgeModule := Gen.C15.tokenBridgeModule
+  moduleSlice := Gen.C15.moduleSlice
+  moduleConv := Gen.C15.moduleConv
+  actionSlice := Gen.C15.actionSlice
+  actContractUpgrade := Gen.C15.actContractUpgrade
+  actNewGuardianSet := Gen.C15.actNewGuardianSet
+  actNewMessageFee := Gen.C15.actNewMessageFee
+  actTransferFee := Gen.C15.actTransferFee
+  actRegisterChain := Gen.C15.actRegisterChain
+  actBridgeContractUpgrade := Gen.C15.actBridgeContractUpgrade
+  actDestroy := Gen.C15.actDestroy
+  actMinConsistency := Gen.C15.actMinConsistency
+  actRefundAddress := Gen.C15.actRefundAddress
+  gsIndex := Gen.C15.gsIndex
+  gsIndexConv := Gen.C15.gsIndexConv
+  gsCount := Gen.C15.gsCount
+  gsCountConv := Gen.C15.gsCountConv
+  gsSizeBase := Gen.C15.gsSizeBase
+  gsSizeStride := Gen.C15.gsSizeStride
+  gsStoreFrom := Gen.C15.gsStoreFrom
+  gsKeyBase := Gen.C15.gsKeyBase
+  gsKeyStride := Gen.C15.gsKeyStride
+  gsKeyWidth := Gen.C15.gsKeyWidth
+  feeValue := Gen.C15.feeValue
+  feeConv := Gen.C15.feeConv
+  feeSize := Gen.C15.feeSize
+  tfAmount := Gen.C15.tfAmount
+  tfAmountConv := Gen.C15.tfAmountConv
+  tfRecipient := Gen.C15.tfRecipient
+  tfSize := Gen.C15.tfSize
+  cuCodeLen := Gen.C15.cuCodeLen
+  cuCodeLenConv := Gen.C15.cuCodeLenConv
+  cuStart := Gen.C15.cuStart
+  rcChain := Gen.C15.rcChain
+  rcChainConv := Gen.C15.rcChainConv
+  rcBridge := Gen.C15.rcBridge
+  rcSize := Gen.C15.rcSize
+  dsChain := Gen.C15.dsChain
+  dsCount := Gen.C15.dsCount
+  dsCountConv := Gen.C15.dsCountConv
+  dsSizeBase := Gen.C15.dsSizeBase
+  dsSizeStride := Gen.C15.dsSizeStride
+  dsPathsFrom := Gen.C15.dsPathsFrom
+  dsPathWidth := Gen.C15.dsPathWidth
+  clValue := Gen.C15.clValue
+  clConv := Gen.C15.clConv
+  clSize := Gen.C15.clSize
+  raLen := Gen.C15.raLen
+  raLenConv := Gen.C15.raLenConv
+  raSizeBase := Gen.C15.raSizeBase
+  raSizeStride := Gen.C15.raSizeStride
+  raAddrFrom := Gen.C15.raAddrFrom
+
+/-- The layout the NODE's serializers implement (`payloads.go`, modelled above), written as parser facts: the contracts the
+node was written against.  A literal, independent of `Whv.Gen.C15` (`Whv.C15.c15_gen_is_node_layout`: `Facts.gen = Facts.node`);
+the driver falls back to it when no facts could be extracted from the current contract sources, so that the node-side
+clauses are never evaluated against facts left over from another tree. -/
+def Facts.node : Facts where
+  coreModule := 0x436f7265
+  tokenBridgeModule := 0x546f6b656e427269646765
+  moduleSlice := (0, 32)
+  moduleConv := 32
+  actionSlice := (32, 33)
+  actContractUpgrade := 1
+  actNewGuardianSet := 2
+  actNewMessageFee := 3
+  actTransferFee := 4
+  actRegisterChain := 1
+  actBridgeContractUpgrade := 2
+  actDestroy := 0xf0
+  actMinConsistency := 0xf1
+  actRefundAddress := 0xf2
+  gsIndex := (33, 37)
+  gsIndexConv := 4
+  gsCount := (37, 38)
+  gsCountConv := 1
+  gsSizeBase := 38
+  gsSizeStride := 20
+  gsStoreFrom := 37
+  gsKeyBase := 1
+  gsKeyStride := 20
+  gsKeyWidth := 20
+  feeValue := (33, 65)
+  feeConv := 32
+  feeSize := 65
+  tfAmount := (33, 65)
+  tfAmountConv := 32
+  tfRecipient := (65, 97)
+  tfSize := 97
+  cuCodeLen := (33, 35)
+  cuCodeLenConv := 2
+  cuStart := 33
+  rcChain := (33, 35)
+  rcChainConv := 2
+  rcBridge := (35, 67)
+  rcSize := 67
+  dsChain := (33, 35)
+  dsCount := (35, 37)
+  dsCountConv := 2
+  dsSizeBase := 37
+  dsSizeStride := 8
+  dsPathsFrom := 37
+  dsPathWidth := 8
+  clValue := (33, 34)
+  clConv := 1
+  clSize := 34
+  raLen := (33, 35)
+  raLenConv := 2
+  raSizeBase := 35
+  raSizeStride := 1
+  raAddrFrom := 35
+
+namespace RalF
+
+/-- `u256From<w>Byte!(s)`: the VM aborts (here: `none`) unless `s` is exactly `w` bytes long. -/
+def conv (w : Nat) (s : Bytes) : Option Nat := if s.length = w then some (unbe s) else none
+
+/-- `parseAndVerifyGovernanceVAAGeneric`: `u256From<moduleConv>Byte!(payload[moduleSlice)) == module`,
+`payload[actionSlice) == action`. -/
+def header (F : Facts) (module action : Nat) (p : Bytes) : Bool :=
+  match Ral.slice p F.moduleSlice, Ral.slice p F.actionSlice with
+  | some m, some a => conv F.moduleConv m == some module && a == be 1 action
+  | _, _ => false
+
+def parseMessageFee (F : Facts) (p : Bytes) : Option Nat :=
+  if !header F F.coreModule F.actNewMessageFee p then none else
+  match Ral.slice p F.feeValue with
+  | some f => if p.length = F.feeSize then conv F.feeConv f else none
+  | none => none
+
+def parseTransferFee (F : Facts) (p : Bytes) : Option (Nat × Bytes) :=
+  if !header F F.coreModule F.actTransferFee p then none else
+  match Ral.slice p F.tfAmount, Ral.slice p F.tfRecipient with
+  | some a, some r =>
+    if p.length = F.tfSize then
+      match conv F.tfAmountConv a with
+      | some av => some (av, r)
+      | none => none
+    else none
+  | _, _ => none
+
+def parseGuardianSet (F : Facts) (p : Bytes) : Option (Nat × List Bytes) :=
+  if !header F F.coreModule F.actNewGuardianSet p then none else
+  match Ral.slice p F.gsIndex, Ral.slice p F.gsCount with
+  | some i, some c =>
+    match conv F.gsIndexConv i, conv F.gsCountConv c with
+    | some iv, some n =>
+      let size := F.gsSizeBase + n * F.gsSizeStride
+      if n = 0 ∨ p.length ≠ size then none
+      else match Ral.slice p (F.gsStoreFrom, size) with
+        | some blob => some (iv, Ral.chunks F.gsKeyStride F.gsKeyWidth n (blob.drop F.gsKeyBase))
+        | none => none
+    | _, _ => none
+  | _, _ => none
+
+/-- As `Ral.parseUpgrade`; in addition, whenever the code-length slice of `parseContractUpgrade` can be taken at all, its
+`u256From<N>Byte!` conversion must fit it. -/
+def parseUpgrade (F : Facts) (module action : Nat) (p : Bytes) : Option Bytes :=
+  if !header F module action p then none else
+  if p.length < F.cuStart then none else
+  match Ral.slice p F.cuCodeLen with
+  | some l => if (conv F.cuCodeLenConv l).isSome then some (p.drop F.cuStart) else none
+  | none => some (p.drop F.cuStart)
+
+def parseRegisterChain (F : Facts) (module : Nat) (p : Bytes) : Option (Nat × Bytes) :=
+  if !header F module F.actRegisterChain p then none else
+  match Ral.slice p F.rcChain, Ral.slice p F.rcBridge with
+  | some c, some b =>
+    if p.length = F.rcSize then
+      match conv F.rcChainConv c with
+      | some cv => some (cv, b)
+      | none => none
+    else none
+  | _, _ => none
+
+def parseDestroy (F : Facts) (p : Bytes) : Option (Nat × List Nat) :=
+  if !header F F.tokenBridgeModule F.actDestroy p then none else
+  match Ral.slice p F.dsChain, Ral.slice p F.dsCount with
+  | some c, some l =>
+    match conv F.dsCountConv l with
+    | some n =>
+      let size := F.dsSizeBase + n * F.dsSizeStride
+      if p.length ≠ size then none
+      else match Ral.slice p (F.dsPathsFrom, size) with
+        | some paths => some (unbe c, (Ral.chunks F.dsPathWidth F.dsPathWidth n paths).map unbe)
+        | none => none
+    | none => none
+  | _, _ => none
+
+def parseMinConsistency (F : Facts) (p : Bytes) : Option Nat :=
+  if !header F F.tokenBridgeModule F.actMinConsistency p then none else
+  if p.length ≠ F.clSize then none else
+  match Ral.slice p F.clValue with
+  | some c => conv F.clConv c
+  | none => none
+
+def parseRefundAddress (F : Facts) (p : Bytes) : Option Bytes :=
+  if !header F F.tokenBridgeModule F.actRefundAddress p then none else
+  match Ral.slice p F.raLen with
+  | some l =>
+    match conv F.raLenConv l with
+    | some n =>
+      let size := F.raSizeBase + n * F.raSizeStride
+      if p.length ≠ size then none else Ral.slice p (F.raAddrFrom, size)
+    | none => none
+  | none => none
+
+end RalF
+
 /-! ## the Spec, as an executable predicate (evaluated by the driver on the IMPLEMENTATION's payloads,
 and proved of the model's payloads in `Whv.Props.C15`) -/
 
@@ -417,6 +695,57 @@ def specOk (gsi : Nat) (pl : Payload) (p : Bytes) : Bool :=
     match hexDecode s with
     | some b => Ral.parseRefundAddress p == some b
     | none => false
+
+/-- `specOk` with the parser facts as data: what the driver evaluates on the node's payloads with the facts extracted
+from the CURRENT contract sources.  `specOkF Facts.gen = specOk` (`Whv.C15.c15_specF_gen`). -/
+def specOkF (F : Facts) (gsi : Nat) (pl : Payload) (p : Bytes) : Bool :=
+  match pl with
+  | .none => false
+  | .updateMessageFee fee =>
+    match hexDecode fee with
+    | some b => b.length == 32 && RalF.parseMessageFee F p == some (unbe b)
+    | none => false
+  | .transferFee amount recipient =>
+    match hexDecode amount, hexDecode recipient with
+    | some a, some r => a.length == 32 && r.length == 32 && RalF.parseTransferFee F p == some (unbe a, r)
+    | _, _ => false
+  | .guardianSet gs =>
+    match keysOf gs with
+    | some keys => RalF.parseGuardianSet F p == some (gsi + 1, keys)
+    | none => false
+  | .contractUpgrade s =>
+    match hexDecode s with
+    | some b => RalF.parseUpgrade F F.coreModule F.actContractUpgrade p == some b
+    | none => false
+  | .registerChain m c e =>
+    match hexDecode e with
+    | some b => b.length == 32 && RalF.parseRegisterChain F (unbe m) p == some (c, b)
+    | none => false
+  | .bridgeUpgrade m s =>
+    match hexDecode s with
+    | some b => RalF.parseUpgrade F (unbe m) F.actBridgeContractUpgrade p == some b
+    | none => false
+  | .destroy c seqs => RalF.parseDestroy F p == some (c, seqs)
+  | .minConsistency l => RalF.parseMinConsistency F p == some l
+  | .refundAddress s =>
+    match hexDecode s with
+    | some b => RalF.parseRefundAddress F p == some b
+    | none => false
+
+/-- Does the contract's parser for the kind of `pl` accept `p` at all (all slices in range, conversions fit, header and
+size assertions pass) — whatever values it then reads? -/
+def acceptsF (F : Facts) (pl : Payload) (p : Bytes) : Bool :=
+  match pl with
+  | .none => false
+  | .updateMessageFee _ => (RalF.parseMessageFee F p).isSome
+  | .transferFee _ _ => (RalF.parseTransferFee F p).isSome
+  | .guardianSet _ => (RalF.parseGuardianSet F p).isSome
+  | .contractUpgrade _ => (RalF.parseUpgrade F F.coreModule F.actContractUpgrade p).isSome
+  | .registerChain m _ _ => (RalF.parseRegisterChain F (unbe m) p).isSome
+  | .bridgeUpgrade m _ => (RalF.parseUpgrade F (unbe m) F.actBridgeContractUpgrade p).isSome
+  | .destroy _ _ => (RalF.parseDestroy F p).isSome
+  | .minConsistency _ => (RalF.parseMinConsistency F p).isSome
+  | .refundAddress _ => (RalF.parseRefundAddress F p).isSome
 
 /-- The envelope part of the Spec: the VAA comes from the configured governance emitter and carries the request's
 set index, timestamp, nonce, sequence and target chain as they were requested (as naturals: a wrapped value differs). -/
